@@ -642,8 +642,9 @@ def run_lex(case):
         if valid:
             viol.append(f"raise: Literal({s!r}, datatype=xsd:{dt}) / normalize() raises {raised} on a valid lexical form")
     else:
+        r_b1, e_b1 = _eqres(l1, b1)
         line = (f"lex|{ill(l0)}|{canon(l0.value)}|{int(valid_for(dt, str(l1)))}|{canon(b1.value)}|{int(str(n1) == str(l1))}"
-                f"|{int(str(n2) == str(n1))}|{ill(l1)}|{canon(l1.value)}")
+                f"|{int(str(n2) == str(n1))}|{ill(l1)}|{canon(l1.value)}|{e_b1}")
         if SPELL:
             line += "|" + "|".join(cps_str(str(x)) for x in (l0, l1, n1, n2))
         obs = [line]
@@ -668,6 +669,10 @@ def run_lex(case):
                 viol.append(f"norm-idem: normalising the normalised form {str(n1)!r} of {s!r}^^xsd:{dt} changes it again")
         if reuse_bad:
             viol.append("reuse: " + reuse_bad)
+        # value-space equality holds whenever term equality does: the (normalised) literal and the literal built
+        # from its own lexical form are the same term
+        if valid and l1 == b1 and r_b1 is not True:
+            viol.append(f"eq-term: {l1!r} == {b1!r} (the literal built from its own lexical form) but .eq() gives {e_b1}")
     if not modelled:
         obs = ["unmodelled"]
         stats["unmodelled"] = 1
@@ -1798,10 +1803,12 @@ def _m_bytes(case, result):
 
 def _m_nan_eq(case, result):
     """NaN: term-equal literals whose values are not equal to themselves"""
-    if case.get("kind") not in ("eq", "relit") or _tags(result) != {"eq-term"}:
+    if case.get("kind") not in ("eq", "relit", "lex") or _tags(result) != {"eq-term"}:
         return False
     try:
-        if case["kind"] == "relit":
+        if case["kind"] == "lex":      # a NaN literal against the literal built from its own lexical form
+            a = b = _mk({"dt": case["dt"], "cps": case["cps"], "norm": True})
+        elif case["kind"] == "relit":
             oldl, _dt, kw = _relit_parts(case)
             a = b = Literal(oldl, **kw)
         else:
